@@ -20,6 +20,7 @@ input_forms: "reject or be right" - y_err / y_cov / y / x handed to the construc
 theta_forms: "reject or be right" for the hyper-parameter VECTOR: every score / gradient / leave-one-out method (and set_hyperparameters followed by
            predictions) given theta as integer-dtype arrays with integer values, float32, lists, tuples, non-contiguous / read-only views must return
            what it returns for the equivalent float64 array (theta-forms/<form>/<operation>-<part>-differs-from-float64-array) and leave it unchanged.
+           scaled/..: the same evaluator and oracles on the data in other units (y, y_err x 1e-9, 1e-6, 1e6; x x 1e-6, 1e6 and combinations), hyper-parameters in the same units.
 large_n  : n in {100, 300, 600} accurately measured points (errors 1e-6..1e-2 of the signal, 1-D): value path and value-and-gradient path of both
            scores finite, equal to each other and to a float64 numpy reference within n eps cond bounds (large-n/<score>/<path>/not-finite,
            large-n/<score>/value-path-differs-from-gradient-path, large-n/<score>/<path>-vs-reference).
@@ -146,6 +147,24 @@ def make_smooth_design(n, d, kind, seed, level):
     y = [0.8 + math.sin(6.0 * p[0]) + p[-1] + level * math.cos(7.0 * (i + off)) for i, p in enumerate(u)]
     e = [level * (1.0 + 0.5 * frac((i + 2 + off) * PHI * PHI)) for i in range(n)]
     return {"X": X, "y": y, "n": n, "d": d, "kind": kind, "noise": "y_err", "y_err": e, "label": "smooth,x=%s,yerr=%g" % (kind, level)}
+
+
+# data scales (units of y and of x) far from 1: (xs, ys), single axes first, nearest to 1 first, then combinations
+DATA_SCALES = [(1.0, 1e-6), (1.0, 1e6), (1e-6, 1.0), (1e6, 1.0), (1.0, 1e-9), (1e-6, 1e-6), (1e6, 1e6), (1e6, 1e-9), (1e-6, 1e6)]
+
+
+def scale_design(des, xs, ys):
+    """the same data in other units: x -> xs x, y -> ys y, y_err -> ys y_err, y_cov -> ys^2 y_cov (the hyper-parameter lattice is
+    built from the ranges and the spread of the design it is given, so it is expressed in the new units too)"""
+    out = dict(des)
+    out["X"] = [[float(xs) * v for v in row] for row in des["X"]]
+    out["y"] = [float(ys) * v for v in des["y"]]
+    if "y_err" in des:
+        out["y_err"] = [float(ys) * v for v in des["y_err"]]
+    if "y_cov" in des:
+        out["y_cov"] = [[float(ys) * float(ys) * v for v in row] for row in des["y_cov"]]
+    out["scaled"] = [float(xs), float(ys)]
+    return out
 
 
 def design_scales(des):
@@ -353,6 +372,9 @@ def ev_scores(case):
     pcls = param_classes(kspec, mspec, d)
     kn = kname(kspec)
     cfg = "k=%s,m=%s,d=%d,n=%d,noise=%s,x=%s" % (kn, mspec, d, n, des["noise"], des["kind"])
+    scaled = des.get("scaled")
+    if scaled:
+        cfg = "scaled:x*%g,y*%g," % tuple(scaled) + cfg
     fails, tags, slack, skipped = [], set(), {}, {}
     nev = 0
     do_grad = case.get("grad", True)
@@ -450,8 +472,9 @@ def ev_scores(case):
 
         # ---- gradients
         if do_grad:
-            gr = ref.gradients(theta, loo=True)
             units = [None] * pm + G.kernel_param_units(kspec, list(theta[pm:]), d)
+            # scaled data: the difference step of the reference is 1e-10 natural units of the parameter (the change-point width for a location / width)
+            gr = ref.gradients(theta, loo=True, h=[1e-10 * (u_ or 1.0) for u_ in units]) if scaled else ref.gradients(theta, loo=True)
             if g2.shape != (len(theta),) or gl2.shape != (len(theta),):
                 fails.append(fail("grad/%s/shape" % kn, "gradient shapes %s %s for %d hyper-parameters" % (g2.shape, gl2.shape, len(theta)), **ctx))
             else:
@@ -479,6 +502,11 @@ def ev_scores(case):
         if f["key"] not in seen:
             seen[f["key"]] = 1
             out.append(f)
+    if scaled:
+        for f in out:
+            f["key"] = "scaled/" + f["key"]
+        slack = {"scaled/" + k_: v_ for k_, v_ in slack.items()}
+        skipped = {"scaled: " + k_: v_ for k_, v_ in skipped.items()}
     return {"fails": out, "n": nev, "tags": tags, "slack": slack, "skipped": skipped, "sample": sample}
 
 
@@ -1413,6 +1441,23 @@ def run(ck):
     # heaviest first for load balance
     cases.sort(key=lambda c: -(c["design"]["n"] ** 3) * len(c["thetas"][0]) * len(c["thetas"]))
     ck.run_cases("scores", cases, chunk=1)
+    # ---- the same score lattice on data in other units (y, y_err and x far from 1, hyper-parameters expressed in the same units)
+    scases = []
+    for ki, kspec in enumerate(KERNELS):
+        for mi, mspec in enumerate(MEANS):
+            for si, (xs_, ys_) in enumerate(DATA_SCALES):
+                rot = seed + ki + mi + si
+                if quick and si >= 5 and (ki + mi + seed) % 4 != (si - 5):
+                    continue  # quick: every single-axis scale, one rotating combination
+                for j in range(1 if quick else 3):
+                    n, d = [(3, 1), (4, 2), (5, 1), (3, 2), (4, 1), (5, 2)][(rot + 2 * j) % 6]
+                    noise = ["y_err", "none", "y_cov"][(rot + j) % 3]
+                    des = scale_design(make_design(n, d, kinds[(rot + j) % 4], seed, noise), xs_, ys_)
+                    thetas = hp_lattice(kspec, mspec, des, (9, rot + j) if quick else (3, rot + j))
+                    for blk in chunks(thetas, 3 if quick else 9):
+                        scases.append({"design": des, "kernel": kspec, "mean": mspec, "thetas": blk})
+    ck.run_cases("scores", scases, chunk=1)
+    ck.extra["data_scale_lattice"] = {"scales_x_y": DATA_SCALES, "cases": len(scases)}
 
     # ---------------------------------------------------------------- automatic selection, bfgs
     sel = []
@@ -1638,6 +1683,10 @@ def run(ck):
     ck.extra["large_n_cases"] = len(lcases)
 
     ck.rule = (
+        "data-scale lattice (keys scaled/<any scores key>, evaluator scores): the score lattice on the same data in other units: (x, y) multiplied by (1, 1e-6), (1, 1e6), (1e-6, 1), (1e6, 1), (1, 1e-9) and the combinations "
+        "(1e-6, 1e-6), (1e6, 1e6), (1e6, 1e-9), (1e-6, 1e6), y_err scaled with y (y_cov with y^2) and the hyper-parameter lattice expressed in the scaled units (built from the scaled design), for every kernel x mean on a "
+        "rotating (n in 3..5, d, noise, layout) (quick: every single-axis scale and one rotating combination, a ninth of the hyper-parameter lattice; thorough: all, three designs, a third): marginal likelihood, LOO score, "
+        "LOO predictions, the value-and-gradient variants and both gradients against the 50-digit reference with the same derived tolerances; distinct by (scale pair, kernel, mean, d, n, noise, layout, cond decade). "
         "theta_forms (keys theta-forms/<form>/<operation>-<part>-differs-from-float64-array, ../hyper-parameter-vector-modified): marginal_likelihood, marginal_likelihood_gradient, loo_likelihood, "
         "loo_likelihood_gradient and set_hyperparameters followed by prediction / loo_predictions, each on a new model, given the hyper-parameter vector as {list / tuple of Python floats, list of numpy "
         "floats, strided view, reversed view, read-only array, float32 array, float32 strided view, longdouble array} and, for lattice points moved to integer values, also {int64 array, int32 array, "
@@ -1676,6 +1725,8 @@ def run(ck):
               "size are only required to be finite (their values are checked against the 50-digit reference for n <= 8)")
     ck.assume("input forms: which container forms the constructor accepts is not part of the claim (any may be refused with ValueError / TypeError; a constructor that breaks with another exception type on "
               "an undocumented form, e.g. AttributeError for y_cov given as a list, produces no model and is counted in a separate tag, not as a violation); a scalar / length-1 y_err, if accepted, can only mean the same error for every point")
+    ck.assume("data-scale lattice: units of y from 1e-9 to 1e6 and of x from 1e-6 to 1e6 with the errors and the hyper-parameters expressed in the same units (amplitudes, noise levels and mean coefficients with y, "
+              "length-scales, change-point location and width with x); the reference's difference step is 1e-10 natural units of each parameter (the change-point width for a location / width)")
     ck.assume("continuous inputs are represented by the listed finite lattices; n <= 8 (50-digit reference); points with cond(K+S) > 1e10 are skipped and counted")
     ck.assume("the diagonal stabiliser of smooth kernels is accepted as any relative inflation in [0,1e-10] of the kernel diagonal (measured from the model's data covariance)")
     ck.assume("near-noise-free selection designs are limited to stated errors of 1e-3..1e-6 of the data range, n <= 15, one smooth target function and the listed input layouts; an exception escaping from the constructor on such data is reported as a violation")
